@@ -35,6 +35,9 @@ def run(rep):
                     "json.Marshal of every statement, Explain of every statement and ExplainStatements non-empty and panic-free; distinct_nontrivial = accepted inputs",
             "samples": res["samples"], "input_distribution": res["dist"], "status_counts": res["counts"], "trusted_base": TRUSTED,
         })
+    b2, summ = searchcommon.run_selectcore(rep, 1500 if rep.tier == "quick" else 40000)
+    broken += b2
+    rep.coverage["selectcore_correspondence"] = summ
     verif.report_broken(rep, broken, found)
     rep.assumptions = ["nesting depth <= 1000 (as in the property)"]
 
